@@ -396,6 +396,65 @@ def example_job(plot):
     return labels
 
 
+def mixed_resolution_cases(chk):
+    """Samples whose reported channels have DIFFERENT resolutions ($PnR 256 / 1024 in three orders), histogram sheet on:
+    run() completes, all five sheets are there, every reported channel has its own bin row and as
+    many counts as bins, and every channel's counts add up to the same number of gated events."""
+    from harness import fcsgen
+    rnd = np.random.RandomState(15)
+    n = 2500
+    for k, res in enumerate(([256, 1024, 1024], [1024, 256, 1024], [256, 256, 1024], [1024, 1024, 1024])):
+        d = tlc.scratch('c15mix_')
+        names = ['FSC', 'SSC', 'FL1', 'FL2', 'FL3', 'Time']
+        ranges = [1024, 1024] + list(res) + [1024]
+        cols = [np.clip(rnd.normal(500, 60, n), 1, 1022), np.clip(rnd.normal(450, 60, n), 1, 1022)]
+        cols += [np.clip(rnd.normal(r * 0.45, r * 0.1, n), 1, r - 2) for r in res]
+        cols.append(np.arange(n) % 1024)
+        ev = np.column_stack(cols).astype(int)
+        fcsgen.write_sample(os.path.join(d, 's1.fcs'), ev.tolist(), names, ranges, bits=16, pne=['0,0'] * 6)
+        inst = pd.DataFrame({'ID': ['I1'], 'Description': ['x'], 'Forward Scatter Channel': ['FSC'], 'Side Scatter Channel': ['SSC'],
+                             'Fluorescence Channels': ['FL1, FL2, FL3'], 'Time Channel': ['Time']})
+        beads = pd.DataFrame({'ID': [], 'Instrument ID': [], 'File Path': [], 'Beads Lot': [], 'FL1 MEF Values': [],
+                              'Gate Fraction': [], 'Clustering Channels': []})
+        samp = pd.DataFrame({'ID': ['S1'], 'Instrument ID': ['I1'], 'Beads ID': [None], 'File Path': ['s1.fcs'],
+                             'FL1 Units': ['Channel'], 'FL2 Units': ['Channel'], 'FL3 Units': ['Channel'], 'Gate Fraction': [0.8]})
+        inp, outp = os.path.join(d, 'in.xlsx'), os.path.join(d, 'out.xlsx')
+        with pd.ExcelWriter(inp) as w:
+            inst.to_excel(w, sheet_name='Instruments', index=False)
+            beads.to_excel(w, sheet_name='Beads', index=False)
+            samp.to_excel(w, sheet_name='Samples', index=False)
+        lab, det = None, None
+        try:
+            with warnings.catch_warnings():
+                warnings.simplefilter('ignore')
+                FlowCal.excel_ui.run(input_path=inp, output_path=outp, verbose=False, plot=False, hist_sheet=True)
+        except Exception as e:  # noqa
+            lab, det = 'run-raised', type(e).__name__ + ': ' + str(e)[:100]
+        if lab is None and not os.path.exists(outp):
+            lab, det = 'no-output-workbook', None
+        if lab is None:
+            sheets = pd.ExcelFile(outp).sheet_names
+            miss = [x for x in ('Instruments', 'Beads', 'Samples', 'Histograms', 'About Analysis') if x not in sheets]
+            if miss:
+                lab, det = 'sheet-missing', miss
+        if lab is None:
+            h = pd.read_excel(outp, sheet_name='Histograms', header=None)
+            got = {}
+            for r in range(1, h.shape[0]):
+                vals = h.iloc[r, 3:].dropna()
+                got[(str(h.iloc[r, 1]), str(h.iloc[r, 2]).split(' ')[0])] = (int(len(vals)), float(vals.sum()))
+            want = {(c, kind): rr for c, rr in zip(('FL1', 'FL2', 'FL3'), res) for kind in ('Bin', 'Counts')}
+            if sorted(got) != sorted(want) or any(got[(c, 'Bin')][0] != got[(c, 'Counts')][0] or got[(c, 'Bin')][0] < 1 for c in ('FL1', 'FL2', 'FL3')):
+                lab, det = 'histogram-rows', {str(x): got[x][0] for x in got}
+            elif len({got[(c, 'Counts')][1] for c in ('FL1', 'FL2', 'FL3')}) != 1:
+                lab, det = 'histogram-counts-differ-between-channels', {c: got[(c, 'Counts')][1] for c in ('FL1', 'FL2', 'FL3')}
+        shutil.rmtree(d, ignore_errors=True)
+        chk.case(('mixres', k), nontrivial=len(set(res)) > 1)
+        chk.traces += 1
+        if lab:
+            chk.violation('C15/mixed-resolutions/' + lab, {'resolutions': list(res)}, 'complete output workbook', det)
+
+
 def main(chk, replay=None):
     global W
     chk.rule = ('GEN: all tables of <= MaxRows rows over 3 identifier states x 4 cell kinds for the write/read round trip; generated '
@@ -408,6 +467,7 @@ def main(chk, replay=None):
         print(json.dumps(replay, indent=1, default=core.jdefault)[:3000])
         return
     spec_lists()
+    mixed_resolution_cases(chk)
     maxrows = 3 if chk.quick else 4
     res = tlc.require_ok(tlc.run_tlc('Workbook', 'SPECIFICATION Spec\nCONSTANT MaxRows = %d\nINVARIANT NothingInvented\n'
                                      'INVARIANT OnlyUnidentifiedDropped\nINVARIANT RefusedOnlyForDuplicates\n' % maxrows, dump=True), 'Workbook')
